@@ -106,6 +106,65 @@ func VH_C04_Accept() {
 	}
 }
 
+// C04-A2: every input of a transaction signed one after the other through the library (each with
+// its own hash type; or all at once through FillAllInputs) is accepted afterwards - signing a later
+// input must not disturb what an earlier signature committed to - and signing changes nothing but
+// the unlocking scripts.
+func VH_C04_AcceptAll() {
+	vparamAfterGenesis = vnondetBool("aftergenesis")
+	kb := vnondetBytes("privkey", 32, 32)
+	vassume(kb[0] >= 1 && kb[0] <= 0x7f)
+	priv, _ := bec.PrivKeyFromBytes(bec.S256(), kb)
+	lock := vp2pkhFor(priv.PubKey().SerialiseCompressed())
+	tx := &bt.Tx{Version: vnondetU32("version"), LockTime: vnondetU32("locktime")}
+	nIn := vnondetLen("nin", 2, vparam("IN", 2))
+	nOut := vnondetLen("nout", 0, vparam("OUT", 2))
+	var prevs []*bt.Output
+	for i := 0; i < nIn; i++ {
+		in := &bt.Input{PreviousTxOutIndex: vnondetU32("vout"), SequenceNumber: vnondetU32("seq")}
+		_ = in.PreviousTxIDAdd(vnondetBytes("txid", 32, 32))
+		p := &bt.Output{Satoshis: vnondetU64("spent-sats"), LockingScript: lock}
+		in.PreviousTxScript, in.PreviousTxSatoshis = lock, p.Satoshis
+		prevs = append(prevs, p)
+		tx.Inputs = append(tx.Inputs, in)
+	}
+	for i := 0; i < nOut; i++ {
+		ls := bscript.Script(vnondetBytes("outscript", 0, 1))
+		tx.Outputs = append(tx.Outputs, &bt.Output{Satoshis: vnondetU64("outsats"), LockingScript: &ls})
+	}
+	cleared := tx.Bytes() // no input carries an unlocking script yet
+	forkid := vnondetBool("forkid")
+	if forkid && vnondetBool("fill-all") {
+		err := tx.FillAllInputs(context.Background(), &unlocker.Getter{PrivateKey: priv})
+		vassume(err == nil)
+		vreach("c04-all-fillall")
+	} else {
+		for i := 0; i < nIn; i++ {
+			ht := vStdTypes[vnondetLen("hashtype", 0, 5)]
+			if forkid {
+				ht |= sighash.ForkID
+			}
+			err := tx.FillInput(context.Background(), &unlocker.Simple{PrivateKey: priv}, bt.UnlockerParams{InputIdx: uint32(i), SigHashFlags: ht})
+			vassume(err == nil)
+		}
+		vreach("c04-all-sequential")
+	}
+	// signing touched nothing but the unlocking scripts
+	ok := len(tx.Inputs) == nIn && len(tx.Outputs) == nOut
+	if ok {
+		stripped := tx.Clone()
+		for _, in := range stripped.Inputs {
+			in.UnlockingScript = &bscript.Script{}
+		}
+		ok = vbytesEq(stripped.Bytes(), cleared)
+	}
+	vassert(ok, "C04: signing changes nothing but the unlocking scripts")
+	for i := 0; i < nIn; i++ {
+		err := vverify(tx, i, prevs[i], forkid)
+		vassert(err == nil, "C04: every input signed one after the other verifies")
+	}
+}
+
 // refCommitted: does a signature with this hash type commit to the mutated part?
 // (derived from the two digest specifications; base is the hash type & 0x1f)
 func refCommitted(class int, base sighash.Flag, acp, forkid bool, idx, nOut, j int) bool {
